@@ -3,13 +3,13 @@
 # Applies the seeded change to a scratch COPY of /repo's working tree (never to
 # /repo itself, so that other runs using /repo are not disturbed), runs the
 # quick checks against that copy (VERIF_REPO_SRC) and removes the copy.
-patch="$1"; shift
+patch="$(readlink -f "$1")"; shift
 T=$(mktemp -d /tmp/seedtree.XXXXXX)
 trap 'rm -rf "$T"' EXIT INT TERM
 cp -r /repo/src "$T/src"
 find "$T" -name __pycache__ -type d -prune -exec rm -rf {} + 2>/dev/null
 (cd "$T" && git apply "$patch") || { echo "patch does not apply"; exit 2; }
-cd /verif
+cd "$(dirname "$0")/.."
 for id in "$@"; do
   out=$(VERIF_REPO_SRC="$T/src" VERIF_EVIDENCE_DIR="$T/evidence" ./check "$id" --tier "${TIER:-quick}" 2>&1 | grep -E "^(VIOLATION|OK|KNOWN|MACHINERY)" | cut -c1-260)
   echo "[$id] $out"
